@@ -169,25 +169,35 @@ def loops_to_comprehensions(tree):
                 if kind is None and ((isinstance(s.value, ast.Dict) and not s.value.keys) or (isinstance(s.value, ast.Call) and isinstance(s.value.func, ast.Name)
                                                                                               and s.value.func.id == 'dict' and not s.value.args and not s.value.keywords)):
                     kind = 'dict'
-                body = nxt.body
-                cond = None
-                conds = []
-                # leading `if c: continue` guards are negated filters
-                while kind and len(body) > 1 and isinstance(body[0], ast.If) and not body[0].orelse and len(body[0].body) == 1 and isinstance(body[0].body[0], ast.Continue):
-                    conds.append(push_not(body[0].test))
-                    body = body[1:]
-                if kind and len(body) == 1 and isinstance(body[0], ast.If) and not body[0].orelse and len(body[0].body) == 1:
-                    conds.append(body[0].test)
-                    body = body[0].body
-                if conds:
-                    cond = conds[0] if len(conds) == 1 else ast.BoolOp(op=ast.And(), values=conds)
+                # peel the loop nest: leading `if c: continue` guards are negated filters, a sole `if c:` wrapping the rest is a filter, a sole
+                # inner `for` is a further generator
+                gens = []
+                cur = nxt
+                body = None
+                while kind:
+                    body = cur.body
+                    conds = []
+                    while True:
+                        if len(body) > 1 and isinstance(body[0], ast.If) and not body[0].orelse and len(body[0].body) == 1 and isinstance(body[0].body[0], ast.Continue):
+                            conds.append(push_not(body[0].test))
+                            body = body[1:]
+                        elif len(body) == 1 and isinstance(body[0], ast.If) and not body[0].orelse and body[0].body and not (len(body[0].body) == 1 and isinstance(body[0].body[0], ast.Continue)):
+                            conds.append(body[0].test)
+                            body = body[0].body
+                        else:
+                            break
+                    gens.append(ast.comprehension(target=cur.target, iter=cur.iter, ifs=conds, is_async=0))
+                    if len(body) == 1 and isinstance(body[0], ast.For) and not body[0].orelse:
+                        cur = body[0]
+                        continue
+                    break
+                gen_exprs = [e for g_ in gens for e in [g_.iter] + list(g_.ifs)]
                 if kind == 'dict' and len(body) == 1 and isinstance(body[0], ast.Assign) and len(body[0].targets) == 1 and isinstance(body[0].targets[0], ast.Subscript) \
                         and isinstance(body[0].targets[0].value, ast.Name) and body[0].targets[0].value.id == x:
                     kexp, vexp = body[0].targets[0].slice, body[0].value
-                    used = {m.id for e in [kexp, vexp, nxt.iter] + list(conds) for m in ast.walk(e) if isinstance(m, ast.Name)}
+                    used = {m.id for e in [kexp, vexp] + gen_exprs for m in ast.walk(e) if isinstance(m, ast.Name)}
                     if x not in used and not any(isinstance(m, (ast.Yield, ast.YieldFrom, ast.Await)) for m in ast.walk(nxt)):
-                        gen = ast.comprehension(target=nxt.target, iter=nxt.iter, ifs=list(conds), is_async=0)
-                        comp = ast.DictComp(key=kexp, value=vexp, generators=[gen])
+                        comp = ast.DictComp(key=kexp, value=vexp, generators=gens)
                         out.append(ast.copy_location(ast.Assign(targets=[s.targets[0]], value=ast.copy_location(comp, nxt)), s))
                         n[0] += 1
                         i += 2
@@ -196,10 +206,9 @@ def loops_to_comprehensions(tree):
                         and isinstance(body[0].value.func.value, ast.Name) and body[0].value.func.value.id == x \
                         and body[0].value.func.attr == ('append' if kind == 'list' else 'add') and len(body[0].value.args) == 1 and not body[0].value.keywords:
                     elt = body[0].value.args[0]
-                    used = {m.id for e in [elt, nxt.iter] + ([cond] if cond is not None else []) for m in ast.walk(e) if isinstance(m, ast.Name)}
+                    used = {m.id for e in [elt] + gen_exprs for m in ast.walk(e) if isinstance(m, ast.Name)}
                     if x not in used and not any(isinstance(m, (ast.Yield, ast.YieldFrom, ast.Await)) for m in ast.walk(nxt)):
-                        gen = ast.comprehension(target=nxt.target, iter=nxt.iter, ifs=list(conds), is_async=0)
-                        comp = ast.ListComp(elt=elt, generators=[gen]) if kind == 'list' else ast.SetComp(elt=elt, generators=[gen])
+                        comp = ast.ListComp(elt=elt, generators=gens) if kind == 'list' else ast.SetComp(elt=elt, generators=gens)
                         out.append(ast.copy_location(ast.Assign(targets=[s.targets[0]], value=ast.copy_location(comp, nxt)), s))
                         n[0] += 1
                         i += 2
